@@ -215,6 +215,53 @@ def column_set(n: int, ends: t.List[int], sparse: bool) -> t.List[int]:
     return sorted(cols)
 
 
+def _continuations(n: int, j: int, ends: t.List[int]) -> t.List[t.List[int]]:
+    """Cut lists (absolute positions > j) for delivering the rest of the stream: whole, the next 16 octets one by one,
+    and split once around the next PDU boundaries and just after j."""
+    if j >= n:
+        return [[]]
+    outs: t.List[t.List[int]] = [[], [p for p in range(j + 1, min(n, j + 17))]]
+    pts = {j + 1, j + 2, j + 5}
+    for e in [x for x in ends if x > j][:2]:
+        pts |= {e - 1, e, e + 1, e + 3}
+    outs += [[p] for p in sorted(pts) if j < p < n][:10]
+    return outs
+
+
+def _run_rest(sess_obj: t.Any, s: bytes, j: int, cuts: t.List[int]) -> t.Any:
+    c = copy.deepcopy(sess_obj)
+    obs: t.List[t.Any] = []
+    pos = j
+    for q in cuts + [len(s)]:
+        try:
+            obs.append([A.src(m) for m in c.receive(s[pos:q])])
+        except BaseException as e:  # noqa: BLE001
+            obs.append(("raises", type(e).__name__))
+            break
+        pos = q
+    return obs, A.public_view(c), copy.deepcopy(c).data_to_send()
+
+
+def behaviour_differs(a: t.Any, b: t.Any, s: bytes, j: int, ends: t.List[int]) -> t.Optional[str]:
+    if A.public_view(a) != A.public_view(b):
+        return f"visible attributes {A.public_view(a)} / {A.public_view(b)}"
+    if copy.deepcopy(a).data_to_send() != copy.deepcopy(b).data_to_send():
+        return "pending output differs"
+    n = len(s)
+    if j < n:
+        for cuts in _continuations(n, j, ends):
+            ra, rb = _run_rest(a, s, j, cuts), _run_rest(b, s, j, cuts)
+            if ra != rb:
+                return f"delivering the rest of the stream cut at {cuts} gives {str(ra)[:200]} / {str(rb)[:200]}"
+    else:
+        # at the end of the stream: the same stream once more (whatever a session makes of it, both must agree)
+        for cuts in ([], [min(5, n - 1)] if n > 1 else []):
+            ra, rb = _run_rest(a, s + s, n, [n + q for q in cuts]), _run_rest(b, s + s, n, [n + q for q in cuts])
+            if ra != rb:
+                return f"delivering the stream again gives {str(ra)[:200]} / {str(rb)[:200]}"
+    return None
+
+
 def explore_stream(st: Stream, flavours: t.List[str]) -> evid.Local:
     loc = evid.Local()
     s = st.data()
@@ -285,8 +332,13 @@ def explore_stream(st: Stream, flavours: t.List[str]) -> evid.Local:
                     )
                     continue
                 if A.freeze(c) != col_state[j]:
-                    loc.violation(f"state-depends-on-chunking:{fl}", f"session state after cut {k} + chunk to {j} ({fl}) differs from a single delivery of {j} bytes", {**case, "cuts": cuts, "flavour": fl})
-                    continue
+                    # structurally different from the single delivery.  "The same state" is about what the session is to its
+                    # user, so this counts only if something visible differs -- now, or on any of the continuations below.
+                    why = behaviour_differs(c, col_sess[j], s, j, ends)
+                    if why:
+                        loc.violation(f"state-depends-on-chunking:{fl}", f"session state after cut {k} + chunk to {j} ({fl}) differs from a single delivery of {j} bytes: {why}", {**case, "cuts": cuts, "flavour": fl})
+                        continue
+                    loc.add("structurally_different_states_behaving_alike")
                 for m in msgs:
                     try:
                         A.absmsg(m)
@@ -367,6 +419,21 @@ def replay(case: t.Dict[str, t.Any], key: t.Optional[str] = None) -> t.Tuple[boo
             lines.append(f"  receive(s[{a}:{b}]) -> {len(r)} messages")
     except BaseException as e:  # noqa: BLE001
         return False, "\n".join(lines) + f"\n  raised {type(e).__name__}: {e}"
-    ok = got == ref and A.freeze(one) == A.freeze(many)
-    lines.append(f"  chunked: {len(got)} messages, single delivery: {len(ref)}; states equal: {A.freeze(one) == A.freeze(many)}")
+    ends = [e for _s, e in ber.frame(s)[0]]
+    same_state = True
+    many2 = session_for(st)
+    for a, b in zip(cuts, cuts[1:]):
+        if b < a:
+            continue
+        many2.receive(_container(fl, s[a:b]))
+        single = session_for(st)
+        if b:
+            single.receive(s[:b])
+        if A.freeze(single) != A.freeze(many2):
+            why = behaviour_differs(many2, single, s, b, ends)
+            if why:
+                same_state = False
+                lines.append(f"  after the chunk ending at {b}: {why}")
+    ok = got == ref and same_state
+    lines.append(f"  chunked: {len(got)} messages, single delivery: {len(ref)}; states equal: {same_state}")
     return ok, "\n".join(lines)
